@@ -785,11 +785,25 @@ def _variable_leaf_ok(fnode):
                     and ast.unparse(v.elts[0]) in (var, 'self.' + var)
                 empty = isinstance(v, (ast.List, ast.Tuple)) and not v.elts
                 got[st.targets[0].attr] = 'var' if holds else 'empty' if empty else 'other'
-            elif isinstance(st, ast.Assign) and len(st.targets) == 1 and isinstance(st.targets[0], ast.Name) and isinstance(st.value, ast.IfExp):
-                pass
+            elif isinstance(st, ast.Assign) and len(st.targets) == 1 and isinstance(st.targets[0], ast.Name):
+                # a local that names one of the two lists: `side = self.in_vars if iotype == 'input' else self.out_vars`
+                v = st.value
+                if isinstance(v, ast.IfExp):
+                    tv = truth(v.test, world)
+                    v = v.body if tv else v.orelse if tv is False else None
+                if isinstance(v, ast.Attribute) and isinstance(v.value, ast.Name) and v.value.id == 'self' and v.attr in ('in_vars', 'out_vars'):
+                    alias[st.targets[0].id] = v.attr
+            elif isinstance(st, ast.Expr) and isinstance(st.value, ast.Call) and isinstance(st.value.func, ast.Attribute) and st.value.func.attr == 'append' and len(st.value.args) == 1:
+                # in-place: the base constructor left both lists empty
+                tgt = st.value.func.value
+                which = alias.get(tgt.id) if isinstance(tgt, ast.Name) else (tgt.attr if isinstance(tgt, ast.Attribute) and isinstance(tgt.value, ast.Name) and tgt.value.id == 'self' else None)
+                if which in ('in_vars', 'out_vars') and ast.unparse(st.value.args[0]) in (var, 'self.' + var) and got.get(which, 'empty') == 'empty':
+                    got[which] = 'var'
+    alias = {}
     res = {}
     for world in ('input', 'output'):
         got = {}
+        alias.clear()
         run(fnode.body, world, got)
         res[world] = got
     return res['input'].get('in_vars') == 'var' and res['input'].get('out_vars', 'empty') == 'empty' \
